@@ -919,6 +919,48 @@ func short(s string, n int) string {
 	return s
 }
 
+// supplyOptions hands the same parameter set to Run in one of five ways (one
+// WithParams; one WithParam per name; WithParam for the first half then
+// WithParams for the rest; two WithParams; WithParams then WithParam): what is
+// supplied is the union, whatever the options used
+func supplyOptions(ps map[string]interface{}, style int) []runtime.Option {
+	var names []string
+	for n := range ps {
+		names = append(names, n)
+	}
+	sort.Strings(names)
+	half := len(names) / 2
+	sub := func(ns []string) map[string]interface{} {
+		out := map[string]interface{}{}
+		for _, n := range ns {
+			out[n] = ps[n]
+		}
+		return out
+	}
+	var opts []runtime.Option
+	switch style % 5 {
+	case 0:
+		opts = append(opts, runtime.WithParams(ps))
+	case 1:
+		for _, n := range names {
+			opts = append(opts, runtime.WithParam(n, ps[n]))
+		}
+	case 2:
+		for _, n := range names[:half] {
+			opts = append(opts, runtime.WithParam(n, ps[n]))
+		}
+		opts = append(opts, runtime.WithParams(sub(names[half:])))
+	case 3:
+		opts = append(opts, runtime.WithParams(sub(names[:half])), runtime.WithParams(sub(names[half:])))
+	default:
+		opts = append(opts, runtime.WithParams(sub(names[:half])))
+		for _, n := range names[half:] {
+			opts = append(opts, runtime.WithParam(n, ps[n]))
+		}
+	}
+	return opts
+}
+
 func main() {
 	out, tier, seed, _ := Args()
 	rng := rand.New(rand.NewSource(seed))
@@ -1036,7 +1078,7 @@ func main() {
 					started = false
 					rctx, cancel := context.WithTimeout(ctx, 2*time.Second)
 					defer cancel()
-					_, err := prog.Run(rctx, runtime.WithParams(ps), runtime.WithLog(Discard))
+					_, err := prog.Run(rctx, append(supplyOptions(ps, len(runsC)), runtime.WithLog(Discard))...)
 					switch {
 					case started:
 						cls = 0
